@@ -22,22 +22,10 @@ NOTES = ("Every check is ./bin/check <id> <tier>; it rebuilds the drivers from /
 
 NOT_APPLICABLE = {}
 
+import glob, importlib.util, os
 CLAIMS = {}
-
-CLAIMS["C10"] = dict(
-    engine="tlc+harness/ustr", level="exploration", design_ref="DESIGN.md section 7 C10",
-    technique="TLA+ definitional spec (UnixStr.tla) enumerated by TLC as input/expected-output oracle; real results judged by TLC (UnixStrJudge.tla)",
-    text=("TLC enumerates every byte string up to the bound (alphabet NUL, '/', ASCII, 0xff) and every operand pair, "
-          "predicts each constructor's exact stored bytes and judges the stored bytes of every produced value against the "
-          "termination obligation; exhaustive small scope + random long operands + real directory entries. A pure-function "
-          "property: TLA+ supplies the independent definition and the exhaustive judge, not a state-space argument."),
-    note="Trusted: TLC, the definitional operators of UnixStr.tla, the driver's observation through as_slice(). Strings longer than the bound are sampled; unix_lit! is judged via from_str_checked at run time.")
-
-CLAIMS["C11"] = dict(
-    engine="tlc+harness/ustr", level="exploration", design_ref="DESIGN.md section 7 C11",
-    technique="TLA+ definitional spec (UnixStr.tla) enumerated by TLC as input/expected-output oracle; guard-page placement for out-of-argument reads; random long operands judged by TLC",
-    text=("All pairs of strings up to length 3 (quick) / 4 (thorough) over {a,b,'/','.'} are enumerated by TLC together with the set of "
-          "admissible answers of find, find_buf, match_up_to(_str), ends_with, path_join(_fmt), parent_path, path_file_name; the real "
-          "operations are run on each with operands ending at a PROT_NONE page (a read outside an argument faults). Random long operands "
-          "are judged by TLC against the same operators."),
-    note="Trusted: TLC and UnixStr.tla. Where the API text leaves an answer open (trailing separator, no separator) all documented readings are admitted. Longer strings are sampled, not enumerated.")
+for _f in sorted(glob.glob(os.path.join(os.path.dirname(os.path.abspath(__file__)), "claims", "c*.py"))):
+    _spec = importlib.util.spec_from_file_location("claim_" + os.path.basename(_f)[:-3], _f)
+    _m = importlib.util.module_from_spec(_spec)
+    _spec.loader.exec_module(_m)
+    CLAIMS[os.path.basename(_f)[:-3].upper()] = _m.CLAIM
